@@ -1,6 +1,6 @@
 (* C08  Substring iterators yield the greedy non-overlapping match sequence. *)
 From Memchr Require Import Spec SpecProofs Params Sub.Prefilter Sub.TwoWay Sub.TwoWayCert
-  Sub.Searcher Sub.SearcherProofs Sub.FindIter Sub.FindIterProofs.
+  Sub.Searcher Sub.SearcherProofs Sub.FindIter Sub.FindIterProofs Sub.TwoWayTier2 Sub.TwoWayTier2Rev.
 
 Example C08_saturating_multiply : pre_mul_saturating = true.
 Proof. reflexivity. Qed.
@@ -96,6 +96,32 @@ Example C08_example :
   rgreedy_seq [1;2;1]%N [1;2;1;2;1;2;1;9;1;2;1]%N = [8; 4; 0].
 Proof. vm_compute. split; reflexivity. Qed.
 
+Lemma fwd_cert_always : forall ar x, tw_reach_fwd ar x = true -> tw_cert_fwd_of x = true.
+Proof.
+  intros ar x H. apply tw_cert_fwd_all. unfold tw_reach_fwd in H. apply andb_true_iff in H as [H _].
+  apply Nat.leb_le in H. lia.
+Qed.
+Lemma rev_cert_always : forall x, tw_reach_rev x = true -> tw_cert_rev_of x = true.
+Proof. intros x H. apply tw_cert_rev_all. unfold tw_reach_rev in H. apply Nat.leb_le in H. lia. Qed.
+
+(* unconditional forms (Tier 2) *)
+Theorem C08_find_iter : forall cfg rank ar x h a an f k,
+  bytes_ok x -> bytes_ok h ->
+  fst (finder_new cfg rank ar x) = Ok f ->
+  exists outs, fst (fiter_run ar f a h k fiter_new) = Ok outs /\ length outs = k /\
+               outs_ok outs (greedy_seq x h) /\
+               loads_ok a (length h) an (length x) (snd (fiter_run ar f a h k fiter_new)).
+Proof. intros cfg rank ar x h a an f k Hx Hh Hf. apply (C08_find_iter_partial cfg rank ar x h a an f k Hx Hh Hf). apply fwd_cert_always. Qed.
+
+Theorem C08_rfind_iter : forall ar x h a f k,
+  bytes_ok x -> bytes_ok h ->
+  fst (rfinder_new x) = Ok f ->
+  exists outs, fst (riter_run ar f a h k (riter_new h)) = Ok outs /\ length outs = k /\
+               routs_ok outs (rgreedy_seq x h).
+Proof. intros ar x h a f k Hx Hh Hf. apply (C08_rfind_iter_partial ar x h a f k Hx Hh Hf). apply rev_cert_always. Qed.
+
+Print Assumptions C08_find_iter.
+Print Assumptions C08_rfind_iter.
 Print Assumptions C08_find_iter_partial.
 Print Assumptions C08_rfind_iter_partial.
 Print Assumptions C08_outs_meaning.
